@@ -202,12 +202,14 @@ func (d *segmentationDescriptor) parseDescriptor(data []byte) error {
 		b, _ := buf.ReadByte()
 		return b
 	}
+	// a descriptor with another identifier is not ours, however short it is
+	if buf.Len() >= 4 && binary.BigEndian.Uint32(data[:4]) != segDescID {
+		return gots.ErrSCTE35InvalidDescriptorID
+	}
 	if buf.Len() < 9 { // identifier, event id and cancel indicator are always present
 		return gots.ErrInvalidSCTE35Length
 	}
-	if binary.BigEndian.Uint32(buf.Next(4)) != segDescID {
-		return gots.ErrSCTE35InvalidDescriptorID
-	}
+	buf.Next(4)
 	d.eventID = binary.BigEndian.Uint32(buf.Next(4))
 	d.eventCancelIndicator = readByte()&0x80 != 0
 	if !d.eventCancelIndicator {
